@@ -175,20 +175,28 @@ pub fn cases(_tier: &str, seed: u64) -> Vec<Case> {
     }
     // every class word on a received record, with and without RDATA: the supported classes (bit 15 apart)
     // are accepted and reported as they are, every other class is an error - never an alias
-    for with_rdata in [false, true] {
+    // (the record's type does not matter to its class: an address with RDATA, a TXT, an SRV and an unassigned type without,
+    // an unassigned type with opaque RDATA - in the answer section and, for the first two, in the additional section)
+    let shapes: [(u16, &[u8], usize); 7] = [(16, &[], 1), (1, &[10, 0, 0, 1], 1), (33, &[], 1), (99, &[], 1), (65280, &[1, 2, 3], 1), (16, &[], 3), (1, &[10, 0, 0, 1], 3)];
+    for (ty, rd, section) in shapes {
         for w in 0..=65535u16 {
-            let mut wire = vec![0u8, 1, 0x80, 0, 0, 0, 0, 1, 0, 0, 0, 0, 1, b'a', 0, 0, if with_rdata { 1 } else { 16 }];
+            // the first two shapes sweep every word, the others every 13th and the neighbourhood of the supported codes
+            if !(ty == 16 && section == 1 || ty == 1 && section == 1) && w % 13 != 0 && !matches!(w & 0x7FFF, 0..=6 | 250..=258) { continue; }
+            let mut wire = vec![0u8, 1, 0x80, 0, 0, 0, 0, 0, 0, 0, 0, 0, 1, b'a', 0];
+            wire[5 + 2 * section] = 1;
+            wire.extend_from_slice(&ty.to_be_bytes());
             wire.extend_from_slice(&w.to_be_bytes());
-            wire.extend_from_slice(&[0, 0, 0, 9]);
-            if with_rdata { wire.extend_from_slice(&[0, 4, 10, 0, 0, 1]); } else { wire.extend_from_slice(&[0, 0]); }
+            wire.extend_from_slice(&[0, 0, 0, 9, 0, rd.len() as u8]);
+            wire.extend_from_slice(rd);
             let parsed = Packet::parse(&wire);
             let out = match &parsed { Ok(p) => format!("ok {}", crate::text::packet(p)), Err(_) => "err".to_string() };
             let mut c = Case::new(format!("parse {}", crate::text::hex(&wire)), out).tag("record-class");
             let low = w & 0x7FFF;
             let supported = matches!(low, 1 | 2 | 3 | 4 | 254);
             match &parsed {
-                Ok(p) => { if !supported { c = c.fail("class-alias", format!("a record with class word {:#06x} is accepted as {:?}", w, p.answers.first().map(|r| r.class))); }
-                           else if p.answers.first().map(|r| (r.class as u16, r.cache_flush)) != Some((low, w & 0x8000 != 0)) { c = c.fail("class-read", format!("class word {:#06x}", w)); } }
+                Ok(p) => { let rec = if section == 1 { p.answers.first() } else { p.additional_records.first() };
+                           if !supported { c = c.fail("class-alias", format!("a record of type {} with class word {:#06x} is accepted as {:?}", ty, w, rec.map(|r| r.class))); }
+                           else if rec.map(|r| (r.class as u16, r.cache_flush)) != Some((low, w & 0x8000 != 0)) { c = c.fail("class-read", format!("type {} class word {:#06x}", ty, w)); } }
                 Err(_) => { if supported { c = c.fail("class-rejected", format!("a record of the supported class {:#06x} is rejected", w)); } }
             }
             v.push(c);
